@@ -78,7 +78,10 @@ impl<Wr: Write> HtmlSerializer<Wr> {
     pub fn new(writer: Wr, opts: SerializeOpts) -> Self {
         let html_name = match opts.traversal_scope {
             TraversalScope::IncludeNode | TraversalScope::ChildrenOnly(None) => None,
-            TraversalScope::ChildrenOnly(Some(ref n)) => Some(tagname(n)),
+            // The named parent only counts as an HTML element (raw-text rules) in the HTML
+            // namespace, exactly as in start_elem().
+            TraversalScope::ChildrenOnly(Some(ref n)) if n.ns == ns!(html) => Some(tagname(n)),
+            TraversalScope::ChildrenOnly(Some(_)) => None,
         };
         HtmlSerializer {
             writer,
